@@ -54,13 +54,18 @@ def cases(tier, rng, boost=1):
 def real(case):
     import msmhelper as mh
     rng = core.Rng(hash(str(case['trajs'])) & 0xffff)
-    arg = gen.to_form(case['trajs'], case.get('form', 'list_of_arrays'), rng)
+    def mkarg():
+        return gen.to_form(case['trajs'], case.get('form', 'list_of_arrays'), rng)
 
     def run():
+        arg = mkarg()
         res = mh.md.dynamical_coring(arg, lagtime=case['tau'], iterative=case['iter'])
         if not isinstance(res, mh.StateTraj):
             raise AssertionError('result is not a StateTraj')
-        return [t.tolist() for t in res.trajs]
+        out_trajs = [t.tolist() for t in res.trajs]
+        if [int(x) for x in res.states] != sorted({x for t in out_trajs for x in t}):
+            raise AssertionError('returned StateTraj reports states that are not the states of its trajectories')
+        return out_trajs
     out = core.call(run)
     out.pop('msg', None)
     return out
